@@ -419,6 +419,17 @@ pub fn scenarios(rng: &mut StdRng, quick: bool) -> Vec<Scenario> {
             });
         }
     }
+    // a manual compaction over two files that are not neighbours; a memtable whose keys lie in
+    // the gap between them is flushed from inside the merge loop (RainCore: CompactPickRange +
+    // FlushInstall during a compaction)
+    out.push(Scenario {
+        name: "manual@compact_loop/flush_into_gap".to_string(),
+        victim: Victim::Get { k: 1 },
+        point: "compact_loop".to_string(),
+        nth: 1,
+        script: "manual_gap".to_string(),
+        memtable: 4000,
+    });
     // a manual compaction whose merge is interrupted by a memtable flush (RainManual: BMergeFlush)
     for second_caller in [false, true] {
         out.push(Scenario {
@@ -438,7 +449,7 @@ pub fn scenarios(rng: &mut StdRng, quick: bool) -> Vec<Scenario> {
         let n = out.len();
         let mut keep = vec![];
         for (i, s) in out.into_iter().enumerate() {
-            if i < 24 || rng.gen_bool(0.6) || i + 7 > n {
+            if i < 24 || rng.gen_bool(0.6) || i + 8 > n {
                 keep.push(s);
             }
         }
@@ -696,16 +707,30 @@ fn run_manual_rotate(sc: &Scenario, seed: u64, run_no: u64) -> SchedOutcome {
         next_vid: Mutex::new(0),
     });
     let mut status = "ok".to_string();
-    // two generations of every key in different files, so that the manual compaction is a merge
-    for round in 0..2 {
-        for k in 1..=6 {
-            env.put(k, 200);
-            if k % 2 == 0 {
+    if sc.script == "manual_gap" {
+        // level 2: [k1] and [k3]; level 1 (pushed no deeper because of level 2): [k1] and [k3]
+        // again; key 2 nowhere. The manual compaction of level 1 takes both level-1 files and
+        // both level-2 files; its output in level 2 covers k1..k3
+        for _generation in 0..2 {
+            for k in [1, 3] {
+                env.put(k, 200);
                 let _ = db.verif_force_flush();
+                let _ = wait_quiescent(&db, Duration::from_secs(60));
             }
         }
-        let _ = wait_quiescent(&db, Duration::from_secs(60));
-        let _ = round;
+    } else {
+        // two generations of every key in different files, so that the manual compaction is a
+        // merge
+        for round in 0..2 {
+            for k in 1..=6 {
+                env.put(k, 200);
+                if k % 2 == 0 {
+                    let _ = db.verif_force_flush();
+                }
+            }
+            let _ = wait_quiescent(&db, Duration::from_secs(60));
+            let _ = round;
+        }
     }
     ctl.arm_next(BG, "compact_loop");
     let mut callers: Vec<(String, mpsc::Receiver<()>)> = vec![];
@@ -727,7 +752,17 @@ fn run_manual_rotate(sc: &Scenario, seed: u64, run_no: u64) -> SchedOutcome {
         // rotate the memtable while the worker is suspended: the second caller's
         // force_memtable_compaction does it, otherwise a writer (one value larger than the
         // budget, then one more write); neither is waited for before the worker is released
-        if sc.nth != 2 {
+        if sc.script == "manual_gap" {
+            // key 2 lies in the gap between the inputs; the large value forces the rotation
+            let e2 = Arc::clone(&env);
+            callers.push((
+                "wr".into(),
+                spawn_named("wr", move || {
+                    e2.put(2, 5000);
+                    e2.put(2, 40);
+                }),
+            ));
+        } else if sc.nth != 2 {
             let e2 = Arc::clone(&env);
             callers.push((
                 "wr".into(),
@@ -1009,7 +1044,7 @@ pub fn run_scenario(sc: &Scenario, seed: u64, run_no: u64) -> SchedOutcome {
     if sc.script == "cold_open" {
         return run_cold_open(sc, seed, run_no);
     }
-    if sc.script == "manual_rotate" {
+    if sc.script == "manual_rotate" || sc.script == "manual_gap" {
         return run_manual_rotate(sc, seed, run_no);
     }
     let u = Arc::new(Universe::plain(6));
